@@ -473,6 +473,51 @@ def v7_receive_paths(run):
                   witness=rcfg.describe_path(wit) if wit else None)
 
 
+def v9_required_attribute_defaults(run, data):
+    run.rule("V9", "a required attribute is absent unless the document carries "
+             "it: the constructor parameter of every required attribute of "
+             "every schema class defaults to None (the parser builds the "
+             "object with the defaults and copies only what the XML has, so any "
+             "other default makes a missing required attribute pass)")
+    m = run.model
+    n = 0
+    for q, c in sorted(data["classes"].items()):
+        ci = m.classes.get(q)
+        if ci is None:
+            continue
+        # the constructor that runs: own or inherited
+        init = None
+        for bq in m.mro(q):
+            bc = m.classes.get(bq)
+            if bc and "__init__" in bc.methods:
+                init = bc.methods["__init__"]
+                break
+        if init is None:
+            continue
+        a = init.node.args
+        names = [x.arg for x in a.args]
+        defs = dict(zip(reversed(names), reversed(a.defaults)))
+        for xml_name, spec in sorted((c.get("c_attributes") or {}).items()):
+            if not spec.get("required"):
+                continue
+            member = spec.get("member")
+            if member not in defs:
+                continue
+            n += 1
+            d = defs[member]
+            ok = isinstance(d, ast.Constant) and d.value is None
+            if not ok:
+                run.violated("V9", "%s.__init__(%s=%s)" % (q, member, unparse(d)),
+                             "required attribute %s of %s defaults to %s: a "
+                             "parsed element that lacks the attribute is "
+                             "indistinguishable from one that carries it and "
+                             "passes validation" % (xml_name, c["name"],
+                                                    unparse(d)), init.loc())
+    run.floor("V9", "required attributes with a constructor parameter", n, 100)
+    run.holds("V9", "required-attribute-defaults", "%d required attributes, all "
+              "default to None" % n, "")
+
+
 def check(run):
     run.explanation = (
         "C13: exhaustive table rules over all schema classes (every declared "
@@ -492,3 +537,6 @@ def check(run):
     v5_overrides(run)
     v6_validators_raise(run, data)
     v7_receive_paths(run)
+    v9_required_attribute_defaults(run, data)
+    from ..common_rules import memo_rule
+    memo_rule(run, "V8", {"validate"}, "validation constraints")
